@@ -193,3 +193,16 @@ def check_equivalences(M, assign, clause="equivalences"):
                                     "nearest anchor is %d (ties %r)" % (t, inv[t], a, ties))
         chosen.append(inv[t])
     return chosen
+
+
+def prior_call(M, case, seed):
+    """Optionally use the map on another configuration first (the normal use of a map):
+    results must not depend on it.  Returns True when a call was made."""
+    if seed % 2 == 0:
+        return False
+    rng = np.random.default_rng(seed)
+    rpos = np.array(case["ref"]["coords"], float)
+    other = rpos @ gen.random_rotation(rng).T + rng.uniform(-5, 5, 3)
+    mol = build_molecule(case["ref"], coords=other)
+    lib("prior-call", M, mol)
+    return True
